@@ -1,5 +1,6 @@
 import NssVerif.Lemmas.Pexit
 import NssVerif.Model.Stage
+import NssVerif.Gen.Src.C05
 
 /-!
 # C05 — Tau exit probability is a faithful, bounded interpolation of the tables
@@ -96,22 +97,59 @@ theorem history_independent_batches (t : PexitTable ℝ) (hist : List (List (Mod
 noncomputable def lgTable (t : PexitTable ℝ) : List (List ℝ) :=
   (floorTable t.data).map fun r => r.map fun x => Real.log x / Real.log 10
 
+/-- the value above the tabulated angle range: ten to the SINGLE-precision logarithm of 2⁻²³ that numpy computes for the float32
+scalar `np.finfo(np.float32).eps` (`Model.Taus.log10Eps32`), the same for every energy -/
+noncomputable def floorValue : ℝ := (10:ℝ) ^ (-(14520031:ℝ) / 2 ^ 21)
+
+set_option exponentiation.threshold 600 in
+/-- … which is "the 1.19e-7 floor" to the three digits the property names (2⁻²³ = 1.1920929e-7; the single-precision
+logarithm makes it 1.1920917e-7) -/
+theorem floorValue_bounds : (1.19e-7:ℝ) < floorValue ∧ floorValue < 1.195e-7 := by
+  unfold floorValue
+  have root : ∀ (p q : ℕ), 0 < q → ((10:ℝ) ^ (-(p:ℝ) / q)) ^ q = 1 / (10:ℝ) ^ p := by
+    intro p q hq
+    have hq' : (q:ℝ) ≠ 0 := by exact_mod_cast hq.ne'
+    rw [← Real.rpow_natCast, ← Real.rpow_mul (by norm_num), div_mul_cancel₀ _ hq', Real.rpow_neg (by norm_num), Real.rpow_natCast]
+    simp
+  constructor
+  · have h1 : (10:ℝ) ^ (-((457:ℕ):ℝ) / (66:ℕ)) ≤ (10:ℝ) ^ (-(14520031:ℝ) / 2 ^ 21) :=
+      Real.rpow_le_rpow_of_exponent_le (by norm_num) (by norm_num)
+    refine lt_of_lt_of_le ?_ h1
+    by_contra h
+    have h' := pow_le_pow_left₀ (Real.rpow_nonneg (by norm_num) _) (not_lt.mp h) 66
+    rw [root 457 66 (by norm_num)] at h'
+    have hc : (1.19e-7:ℝ) ^ 66 < 1 / (10:ℝ) ^ 457 := by norm_num
+    exact absurd h' (not_le.mpr hc)
+  · have h1 : (10:ℝ) ^ (-(14520031:ℝ) / 2 ^ 21) ≤ (10:ℝ) ^ (-((90:ℕ):ℝ) / (13:ℕ)) :=
+      Real.rpow_le_rpow_of_exponent_le (by norm_num) (by norm_num)
+    refine lt_of_le_of_lt h1 ?_
+    by_contra h
+    have h' := pow_le_pow_left₀ (by norm_num) (not_lt.mp h) 13
+    rw [root 90 13 (by norm_num)] at h'
+    have hc : 1 / (10:ℝ) ^ 90 < (1.195e-7:ℝ) ^ 13 := by norm_num
+    exact absurd h' (not_le.mpr hc)
+
+theorem log10Eps32_eq : (10:ℝ) ^ (log10Eps32 : ℝ) = floorValue := by
+  unfold floorValue log10Eps32
+  congr 1
+  rw [dy_eq]; norm_num
+
 /-- the result of one call as a formula over ℝ -/
 theorem pexit_real (t : PexitTable ℝ) (b le : ℝ) : (pexitCall t b le).2 =
-    if t.beta.getD (t.beta.length - 1) 0 < b then .ok eps
+    if t.beta.getD (t.beta.length - 1) 0 < b then .ok floorValue
     else if Model.Interp.outOfBounds t.logE le || Model.Interp.outOfBounds t.beta (if b < t.beta.getD 0 0 then t.beta.getD 0 0 else b)
       then .error .outOfBounds
     else .ok ((10:ℝ) ^ bilinear t.logE t.beta (lgTable t) le (if b < t.beta.getD 0 0 then t.beta.getD 0 0 else b)) := by
   unfold pexitCall lgTable
-  simp only [ltb_eq, ofNat_eq, Nat.cast_zero, pow_eq, eps32_eq, log10_eq]
-  have : (10:ℝ) ^ (Real.log eps / Real.log 10) = eps := ten_pow_log10 eps eps_pos
+  simp only [ltb_eq, ofNat_eq, Nat.cast_zero, pow_eq]
+  have : (10:ℝ) ^ (log10Eps32 : ℝ) = floorValue := log10Eps32_eq
   have hl : (Scalar.log10 : ℝ → ℝ) = fun x => Real.log x / Real.log 10 := rfl
   norm_num [this, hl]
 
-/-- angles above the tabulated maximum take the 2⁻²³ ≈ 1.19e-7 floor -/
+/-- angles above the tabulated maximum take the 1.19e-7 floor (`floorValue`, see `floorValue_bounds`), whatever the energy -/
 theorem above_max_floor (t : PexitTable ℝ) (b le : ℝ) (hb : t.beta.getD (t.beta.length - 1) 0 < b) :
-    (pexitCall t b le).2 = .ok (1 / (2:ℝ) ^ 23) := by
-  rw [pexit_real, if_pos hb]; rfl
+    (pexitCall t b le).2 = .ok floorValue ∧ (1.19e-7:ℝ) < floorValue ∧ floorValue < 1.195e-7 := by
+  rw [pexit_real, if_pos hb]; exact ⟨rfl, floorValue_bounds⟩
 
 /-- angles below the tabulated minimum take the minimum-angle value -/
 theorem below_min_uses_min (t : PexitTable ℝ) (ht : PexitTableOK t) (b le : ℝ) (hb : b < t.beta.getD 0 0) :
@@ -262,5 +300,56 @@ theorem node_exact (t : PexitTable ℝ) (ht : PexitTableOK t) (i j : Nat) (hi : 
 
 /-! ### non-vacuity -/
 example : 2 ≤ (pexit3 : PexitTable ℝ).logE.length := shipped_v3_ok.nE
+
+/-! ### source tie: `Taus.tau_exit_prob` as translated from the Python source of the working tree IS the model
+
+`Gen/Src/C05.lean` is regenerated from `taus.py` on every run (harness/pytrans.py, harness/srcspecs/C05.py): one event
+`(beta, logENu)` and one table `entry`; the two calls of scipy's interpolator are the inputs `interpValid` / `interpLow`, and the
+translation exports WHERE it is queried and WHAT it is built on.  All four equalities hold for every `Scalar` instance — over ℝ
+(what the theorems above are about) and at `Float` (what the driver executes). -/
+
+section SourceTie
+variable {α : Type} [Scalar α]
+open Scalar
+
+/-- the in-place floor `data[data <= 0] = eps32`: the table the call leaves behind is, entry by entry, the `data` the translated
+source stores (whatever the event) -/
+theorem src_tauExitProb_floor (d : List (List α)) (b le iv il : α) (ax : List α) :
+    floorTable d = d.map fun r => r.map fun x => (Gen.Src.C05.tauExitProb b le x ax iv il).data := by rfl
+
+/-- what the interpolator is built on (`RegularGridInterpolator(axes, np.log10(data))`, argument exported by the translator):
+the table `lg` of `pexitCall` — log10 of the floored table — entry by entry -/
+theorem src_tauExitProb_logTable (d : List (List α)) (b le iv il : α) (ax : List α) :
+    (floorTable d).map (fun r => r.map log10) = d.map fun r => r.map fun x => (Gen.Src.C05.tauExitProb b le x ax iv il).rgiArg0 := by
+  simp only [floorTable, List.map_map, Function.comp_def]
+  rfl
+
+/-- where the interpolator is queried: at the event's own (log_e_nu, beta) inside the table, at (log_e_nu, first node of the angle
+axis) below it -/
+theorem src_tauExitProb_queries (b le x iv il : α) (ax : List α) :
+    ((Gen.Src.C05.tauExitProb b le x ax iv il).interpValidArg0, (Gen.Src.C05.tauExitProb b le x ax iv il).interpValidArg1) = (le, b) ∧
+    ((Gen.Src.C05.tauExitProb b le x ax iv il).interpLowArg0, (Gen.Src.C05.tauExitProb b le x ax iv il).interpLowArg1) = (le, ax.getD 0 0) := by
+  exact ⟨rfl, rfl⟩
+
+/-- **`Taus.tau_exit_prob` for one event equals the model's state machine `pexitCall`**: with the table's angle axis as `betaAxis`
+and the two opaque inputs instantiated by the bilinear interpolation of `lg` at the exported query points, the model's result is
+the translated `ret` — except where scipy raises (a query point outside the table on an event that reaches the interpolator),
+which the translation of straight-line numpy code cannot express and the model states as `Err.outOfBounds`.
+Not `rfl`: the source writes three mask stores (`valid`, then `beta_low`, then `beta_high`), the model a nested conditional
+(above first); the proof is the case split on the two comparisons, for every `Scalar`. -/
+theorem src_tauExitProb (t : PexitTable α) (b le x : α) :
+    (pexitCall t b le).2 =
+      if !(ltb (t.beta.getD (t.beta.length - 1) 0) b) &&
+          (Model.Interp.outOfBounds t.logE le || Model.Interp.outOfBounds t.beta (if ltb b (t.beta.getD 0 0) then t.beta.getD 0 0 else b))
+      then .error .outOfBounds
+      else .ok (Gen.Src.C05.tauExitProb b le x t.beta
+        (bilinear t.logE t.beta ((floorTable t.data).map fun r => r.map log10) le b)
+        (bilinear t.logE t.beta ((floorTable t.data).map fun r => r.map log10) le (t.beta.getD 0 0))).ret := by
+  have e0 : (Scalar.ofNat 0 : α) = 0 := by rfl
+  unfold pexitCall Gen.Src.C05.tauExitProb
+  simp only [e0]
+  cases hh : ltb (t.beta.getD (t.beta.length - 1) 0) b <;> cases hl : ltb b (t.beta.getD 0 0) <;> simp [log10Eps32]
+
+end SourceTie
 
 end C05
